@@ -259,7 +259,7 @@ def linearity(ctx, g, dims):
 
 def scenarios(tier):
     T = []
-    D = {1: [[3]], 2: [[2, 2]], 3: [[2, 2, 2]]}
+    D = {1: [[3]], 2: [[2, 2], [2, 3]], 3: [[2, 2, 2], [1, 2, 3]]}
     if tier == 'thorough':
         D = {1: [[1], [2], [3]], 2: [[2, 2], [1, 2], [3, 2]], 3: [[2, 2, 2], [2, 1, 2]]}
     lists = LISTS if tier == 'quick' else LISTS_T
@@ -268,6 +268,8 @@ def scenarios(tier):
         for dims in D[nd]:
             for ln in lists:
                 if tier == 'quick' and nd == 3 and ln not in ('typical', 'all_kinds', 'scaled', 'pair', 'empty'):
+                    continue
+                if tier == 'quick' and dims != D[nd][0] and ln != 'typical':
                     continue
                 T.append({'name': 'assembly/%s/%s/%s' % (g, 'x'.join(map(str, dims)), ln), 'fn': 'pv.props.c04:assembly',
                           'params': {'g': g, 'dims': dims, 'listname': ln}, 'timeout': 30, 'validate': 1})
